@@ -277,6 +277,10 @@ def libxml2_reading(data: bytes, as_expat: bool = True):
     root, bad = read(data)
     if root is None or bad:
         return None, False, False
+    if as_expat and any("}" in (u or "") for el in root.iter() for u in el.nsmap.values()):
+        # pyexpat asks expat to join namespace and local name with "}", and expat (>= 2.4.5)
+        # refuses namespace names that contain the separator: a syntax error for this handler
+        return None, True, False
     return _walk(root), not version_only, version_only
 
 
